@@ -69,25 +69,29 @@ Record state := mkState {
   allow : addr -> addr -> option (tentry (Z * Z)); (* temporary Allowance{owner,spender} -> (amount, live_until_ledger) *)
   cmp_set : bool;                                  (* RWAStorageKey::Compliance present *)
   idv_set : bool;                                  (* RWAStorageKey::IdentityVerifier present *)
+  cmp_at : addr;                                   (* ... and the compliance contract it names (meaningful when present) *)
+  idv_at : addr;                                   (* ... and the identity verifier it names *)
   idv_log : list iev;                              (* calls received by the identity verifier during the current call *)
   cmp_log : list cev                               (* calls received by the compliance contract during the current call *)
 }.
 
 Definition init : state :=
-  mkState 0 false 0 (fun _ => 0) (fun _ => 0) (fun _ => false) (fun _ _ => None) false false [] [].
+  mkState 0 false 0 (fun _ => 0) (fun _ => 0) (fun _ => false) (fun _ _ => None) false false 0%N 0%N [] [].
 
-Definition set_now s v := mkState v (paused s) (supply s) (bal s) (frozen s) (aflag s) (allow s) (cmp_set s) (idv_set s) (idv_log s) (cmp_log s).
-Definition set_paused s v := mkState (now s) v (supply s) (bal s) (frozen s) (aflag s) (allow s) (cmp_set s) (idv_set s) (idv_log s) (cmp_log s).
-Definition set_supply s v := mkState (now s) (paused s) v (bal s) (frozen s) (aflag s) (allow s) (cmp_set s) (idv_set s) (idv_log s) (cmp_log s).
-Definition set_bal s v := mkState (now s) (paused s) (supply s) v (frozen s) (aflag s) (allow s) (cmp_set s) (idv_set s) (idv_log s) (cmp_log s).
-Definition set_frozen s v := mkState (now s) (paused s) (supply s) (bal s) v (aflag s) (allow s) (cmp_set s) (idv_set s) (idv_log s) (cmp_log s).
-Definition set_aflag s v := mkState (now s) (paused s) (supply s) (bal s) (frozen s) v (allow s) (cmp_set s) (idv_set s) (idv_log s) (cmp_log s).
-Definition set_allow s v := mkState (now s) (paused s) (supply s) (bal s) (frozen s) (aflag s) v (cmp_set s) (idv_set s) (idv_log s) (cmp_log s).
-Definition set_cmp_set s v := mkState (now s) (paused s) (supply s) (bal s) (frozen s) (aflag s) (allow s) v (idv_set s) (idv_log s) (cmp_log s).
-Definition set_idv_set s v := mkState (now s) (paused s) (supply s) (bal s) (frozen s) (aflag s) (allow s) (cmp_set s) v (idv_log s) (cmp_log s).
-Definition log_idv (ev : iev) s := mkState (now s) (paused s) (supply s) (bal s) (frozen s) (aflag s) (allow s) (cmp_set s) (idv_set s) (idv_log s ++ [ev]) (cmp_log s).
-Definition log_cmp (ev : cev) s := mkState (now s) (paused s) (supply s) (bal s) (frozen s) (aflag s) (allow s) (cmp_set s) (idv_set s) (idv_log s) (cmp_log s ++ [ev]).
-Definition clear_logs s := mkState (now s) (paused s) (supply s) (bal s) (frozen s) (aflag s) (allow s) (cmp_set s) (idv_set s) [] [].
+Definition set_now s v := mkState v (paused s) (supply s) (bal s) (frozen s) (aflag s) (allow s) (cmp_set s) (idv_set s) (cmp_at s) (idv_at s) (idv_log s) (cmp_log s).
+Definition set_paused s v := mkState (now s) v (supply s) (bal s) (frozen s) (aflag s) (allow s) (cmp_set s) (idv_set s) (cmp_at s) (idv_at s) (idv_log s) (cmp_log s).
+Definition set_supply s v := mkState (now s) (paused s) v (bal s) (frozen s) (aflag s) (allow s) (cmp_set s) (idv_set s) (cmp_at s) (idv_at s) (idv_log s) (cmp_log s).
+Definition set_bal s v := mkState (now s) (paused s) (supply s) v (frozen s) (aflag s) (allow s) (cmp_set s) (idv_set s) (cmp_at s) (idv_at s) (idv_log s) (cmp_log s).
+Definition set_frozen s v := mkState (now s) (paused s) (supply s) (bal s) v (aflag s) (allow s) (cmp_set s) (idv_set s) (cmp_at s) (idv_at s) (idv_log s) (cmp_log s).
+Definition set_aflag s v := mkState (now s) (paused s) (supply s) (bal s) (frozen s) v (allow s) (cmp_set s) (idv_set s) (cmp_at s) (idv_at s) (idv_log s) (cmp_log s).
+Definition set_allow s v := mkState (now s) (paused s) (supply s) (bal s) (frozen s) (aflag s) v (cmp_set s) (idv_set s) (cmp_at s) (idv_at s) (idv_log s) (cmp_log s).
+Definition set_cmp_set s v := mkState (now s) (paused s) (supply s) (bal s) (frozen s) (aflag s) (allow s) v (idv_set s) (cmp_at s) (idv_at s) (idv_log s) (cmp_log s).
+Definition set_idv_set s v := mkState (now s) (paused s) (supply s) (bal s) (frozen s) (aflag s) (allow s) (cmp_set s) v (cmp_at s) (idv_at s) (idv_log s) (cmp_log s).
+Definition log_idv (ev : iev) s := mkState (now s) (paused s) (supply s) (bal s) (frozen s) (aflag s) (allow s) (cmp_set s) (idv_set s) (cmp_at s) (idv_at s) (idv_log s ++ [ev]) (cmp_log s).
+Definition log_cmp (ev : cev) s := mkState (now s) (paused s) (supply s) (bal s) (frozen s) (aflag s) (allow s) (cmp_set s) (idv_set s) (cmp_at s) (idv_at s) (idv_log s) (cmp_log s ++ [ev]).
+Definition set_cmp_at s v := mkState (now s) (paused s) (supply s) (bal s) (frozen s) (aflag s) (allow s) true (idv_set s) v (idv_at s) (idv_log s) (cmp_log s).
+Definition set_idv_at s v := mkState (now s) (paused s) (supply s) (bal s) (frozen s) (aflag s) (allow s) (cmp_set s) true (cmp_at s) v (idv_log s) (cmp_log s).
+Definition clear_logs s := mkState (now s) (paused s) (supply s) (bal s) (frozen s) (aflag s) (allow s) (cmp_set s) (idv_set s) (cmp_at s) (idv_at s) [] [].
 
 (* plain `+` / `-` on i128 with overflow checks on *)
 Definition add_i128 (a b : Z) : res Z := of_option (checked_add a b).
@@ -147,6 +151,10 @@ Definition spend_allowance (hc : hostcfg) (owner spender : addr) (amt : Z) (s : 
 
 (* ------------------------------------------------------------------ *)
 (* RWA                                                                  *)
+
+(* the collaborators the token currently points at *)
+Definition link_cmp (s : state) : option addr := if cmp_set s then Some (cmp_at s) else None.
+Definition link_idv (s : state) : option addr := if idv_set s then Some (idv_at s) else None.
 
 (* RWA::compliance / RWA::identity_verifier: panic when not set *)
 Definition compliance_addr (s : state) : res unit := guard (cmp_set s).
@@ -293,11 +301,20 @@ Inductive op :=
 | Unfreeze (a : addr) (amt : Z) (operator : addr)
 | Pause (caller : addr)
 | Unpause (caller : addr)
-| SetCompliance (operator : addr)          (* points the token at the (mock) compliance contract *)
-| SetIdentityVerifier (operator : addr)    (* points the token at the (mock) identity verifier *)
+| SetCompliance (which : addr) (operator : addr)        (* points the token at the compliance contract [which] *)
+| SetIdentityVerifier (which : addr) (operator : addr)  (* points the token at the identity verifier [which] *)
 | Advance (n : Z).                         (* ledger sequence += n *)
 
-Record call := mkCall { c_op : op; c_auths : list addr; c_orc : oracle }.
+(* [c_orc a] = the answers of the collaborator contract at address [a] during this call: the token
+   must consult the contracts it CURRENTLY points at *)
+Record call := mkCall { c_op : op; c_auths : list addr; c_orc : addr -> oracle }.
+
+(* the answers the token actually gets: the identity questions go to the registered verifier,
+   the compliance questions to the registered compliance contract *)
+Definition eff_orc (s : state) (c : call) : oracle :=
+  let oi := c_orc c (match link_idv s with Some a => a | None => 0%N end) in
+  let oc := c_orc c (match link_cmp s with Some a => a | None => 0%N end) in
+  mkOracle (o_verified oi) (o_can_transfer oc) (o_can_create oc) (o_recovery oi).
 
 (* the argument types of the entry points: i128 amounts, u32 ledgers *)
 Definition wf_op (s : state) (o : op) : bool :=
@@ -317,7 +334,7 @@ Definition unit_ret (r : res state) : res (ret * state) := do s <- r; Ok (None, 
 Definition exec_with (tf : hostcfg -> list addr -> oracle -> addr -> addr -> addr -> Z -> state -> res state)
   (hc : hostcfg) (c : call) (s : state) : res (ret * state) :=
   let au := c_auths c in
-  let o := c_orc c in
+  let o := eff_orc s c in
   do _ <- guard (wf_op s (c_op c));
   match c_op c with
   | Transfer from to amt => unit_ret (transfer au o from to amt s)
@@ -335,8 +352,8 @@ Definition exec_with (tf : hostcfg -> list addr -> oracle -> addr -> addr -> add
   | Unfreeze a amt opr => unit_ret (do _ <- guard (has_auth au opr); unfreeze_partial_tokens a amt s)
   | Pause cl => unit_ret (do _ <- guard (has_auth au cl); pause s)
   | Unpause cl => unit_ret (do _ <- guard (has_auth au cl); unpause s)
-  | SetCompliance opr => unit_ret (do _ <- guard (has_auth au opr); Ok (set_cmp_set s true))
-  | SetIdentityVerifier opr => unit_ret (do _ <- guard (has_auth au opr); Ok (set_idv_set s true))
+  | SetCompliance w opr => unit_ret (do _ <- guard (has_auth au opr); Ok (set_cmp_at s w))
+  | SetIdentityVerifier w opr => unit_ret (do _ <- guard (has_auth au opr); Ok (set_idv_at s w))
   | Advance n => Ok (None, set_now s (now s + n))
   end.
 
